@@ -6,6 +6,7 @@ highest N is the current state of the checks, the first one the state before any
 import json, os, re, shutil, sys, glob
 
 R = json.load(open(sys.argv[1])); rnd = int(sys.argv[2]); OUT = sys.argv[3] if len(sys.argv) > 3 else '/tmp/ev-out'
+PRE = sys.argv[4] if len(sys.argv) > 4 else ''   # tag prefix of the round's evaluations, e.g. 'r6-'
 
 def parse(path):
     d = {'demo_without': None, 'demo_with': None, 'checks': []}
@@ -26,8 +27,8 @@ def verdict(c):
 
 n = 0
 for mid, e in R.items():
-    src = e['src']; P = e['property']; base = os.path.basename(os.path.dirname(src)) + '-' + os.path.basename(src)
-    sums = sorted(glob.glob(f'{OUT}/{base}.summary') + glob.glob(f'{OUT}/{base}-r*.summary') + glob.glob(f'{OUT}/{base}-x.summary'),
+    src = e['src']; P = e['property']; base = PRE + os.path.basename(os.path.dirname(src)) + '-' + os.path.basename(src)
+    sums = sorted(glob.glob(f'{OUT}/{base}.summary') + glob.glob(f'{OUT}/{base}-r*.summary') + glob.glob(f'{OUT}/{base}-x*.summary'),
                   key=lambda p: (0 if p.endswith(base + '.summary') else 1, p))
     evals = [(os.path.basename(p)[:-8], parse(p)) for p in sums]
     evals = [(t, d) for t, d in evals if d['checks']]
